@@ -64,11 +64,17 @@ def create_branch(job: CreateBranchJob):
 
     # do not allow recreating a previously existing identical branch
     # (unless archive tag is manually removed)
-    if new_branch.version in repo.cmd('git tag').split('\n')[:-1]:
-        raise exceptions.JobFailure('Cannot create branch %r because there is '
-                                    'already an archive tag %r in the '
-                                    'repository.' %
-                                    (new_branch, new_branch.version))
+    archive_tags = [new_branch.version]
+    if isinstance(new_branch, HotfixBranch):
+        # archive tag left by the delete_branch job on a hotfix branch
+        archive_tags.append(new_branch.version + '.archived_hotfix_branch')
+    tags = repo.cmd('git tag').split('\n')[:-1]
+    for archive_tag in archive_tags:
+        if archive_tag in tags:
+            raise exceptions.JobFailure('Cannot create branch %r because '
+                                        'there is already an archive tag %r '
+                                        'in the repository.' %
+                                        (new_branch, archive_tag))
 
     cascade = BranchCascade()
     cascade.build(job.git.repo)
